@@ -10,7 +10,7 @@ RULE = ("exhaustive: every (element, isotope | none) pair of the table (render, 
         "{C, l, X, 1, 9, [, ], +, -, space, e-acute, superscript-2, CJK} through parse / FromStr / the helper and as "
         "read keys; random longer strings and mutations of valid specifications; class of a case = (operation, "
         "outcome of the real code, spec verdict)")
-MODULES = ["Props.C16", "Inst.C16"]
+MODULES = ["Props.C16", "Inst.C16", "Inst.Variant"]
 ALPHABET = ["C", "l", "X", "1", "9", "[", "]", "+", "-", " ", "é", "²", "中"]
 
 
@@ -105,6 +105,8 @@ def run(r: Run):
             variants += [d + g, g + d, d + g + d, d + g + d + d, g[:1] + d + g[1:]]
     rnd = ["".join(rng.choice(ALPHABET + ["H", "O", "0", "3", "e", "*"]) for _ in range(rng.randint(7, 24))) for _ in range(2000 if thorough else 300)]
     allstr = strings + variants + exhaustive + muts + rnd
+    from .common import check_charclasses
+    check_charclasses(r, allstr)
     plines = [f"parse\t{cps(s)}" for s in allstr]
     pi, pm = r.impl("spec", plines), r.model("spec", plines)
     for s, a, b in zip(allstr, pi, pm):
